@@ -26,12 +26,17 @@ import (
 // paths have at most 4 components, each of which climbs at most one level, so
 // nothing a call can reach or change lies outside base/u4; dumps start at
 // base and therefore show every object a call can have touched.
+//
+// R0 is where the tree is made (skeleton, links, expansion of the absolute
+// targets); R is the root the questions are asked from: R0, except after the
+// move "root", which renames R0 to its sibling base/u4/u3/u2/u1/s.
 type world struct {
-	base, R string
-	k       *osfs.OsFS
-	v       avfs.VFS
-	links   []Link
-	mode    int // 0 absolute queries (cwd "/"), 1 cwd = R, 2 cwd = R/d
+	base, R0, R string
+	k           *osfs.OsFS
+	v           avfs.VFS
+	links       []Link
+	move        string // see allMoves; "" = the links stay where they were made
+	mode        int    // 0 absolute queries (cwd "/"), 1 cwd = R, 2 cwd = the directory made as R/d
 
 	pristineK, pristineV   []string
 	pristineKs, pristineVs string
@@ -53,7 +58,8 @@ var upDirs = []string{"u4", "u3", "u2", "u1", "r"}
 
 func newWorld(scratch string) *world {
 	base := filepath.Join(scratch, fmt.Sprintf("c04-%d", os.Getpid()))
-	w := &world{base: base, R: filepath.Join(append([]string{base}, upDirs...)...)}
+	w := &world{base: base, R0: filepath.Join(append([]string{base}, upDirs...)...)}
+	w.R = w.R0
 	w.k = osfs.NewWithOptions(&osfs.Options{Idm: osidm.New()})
 
 	return w
@@ -66,18 +72,86 @@ func (w *world) close() {
 
 func (w *world) expand(target string) string {
 	if strings.HasPrefix(target, "R/") {
-		return w.R + target[1:]
+		return w.R0 + target[1:]
 	}
 
 	return target
 }
 
+// linkPath is where the link is made.
 func (w *world) linkPath(l Link) string {
 	if l.Place == "d" {
-		return w.R + "/d/" + l.Name
+		return w.R0 + "/d/" + l.Name
 	}
 
-	return w.R + "/" + l.Name
+	return w.R0 + "/" + l.Name
+}
+
+// otherPath is the same name in the other placement.
+func (w *world) otherPath(l Link) string {
+	if l.Place == "d" {
+		return w.R0 + "/" + l.Name
+	}
+
+	return w.R0 + "/d/" + l.Name
+}
+
+// setMove selects the move of the configuration and with it the root the
+// questions are asked from.
+func (w *world) setMove(move string) {
+	w.move = move
+	w.R = w.R0
+
+	if move == "root" {
+		w.R = filepath.Dir(w.R0) + "/s"
+	}
+}
+
+// moveSteps is the move as a sequence of Rename(old, new) calls, applied to
+// both sides after the last Symlink (see allMoves).
+func (w *world) moveSteps() [][2]string {
+	link := func(k int, back bool) [][2]string {
+		if k >= len(w.links) {
+			return nil
+		}
+
+		a, b := w.linkPath(w.links[k]), w.otherPath(w.links[k])
+		if back {
+			return [][2]string{{a, b}, {b, a}}
+		}
+
+		return [][2]string{{a, b}}
+	}
+
+	d, e, dd := w.R0+"/d", w.R0+"/e", w.R0+"/dd"
+
+	switch w.move {
+	case "link1":
+		return link(0, false)
+	case "link1-back":
+		return link(0, true)
+	case "link2":
+		return link(1, false)
+	case "dir":
+		return [][2]string{{d, e}}
+	case "dir-back":
+		return [][2]string{{d, e}, {e, d}}
+	case "swap":
+		return [][2]string{{d, e}, {dd, d}}
+	case "root":
+		return [][2]string{{w.R0, w.R}}
+	}
+
+	return nil
+}
+
+// dName is the present name of the directory made as R/d.
+func (w *world) dName() string {
+	if w.move == "dir" || w.move == "swap" {
+		return "e"
+	}
+
+	return "d"
 }
 
 func (w *world) cwd() string {
@@ -85,7 +159,7 @@ func (w *world) cwd() string {
 	case 1:
 		return w.R
 	case 2:
-		return w.R + "/d"
+		return w.R + "/" + w.dName()
 	}
 
 	return "/"
@@ -103,27 +177,27 @@ func (w *world) buildK() error {
 		return err
 	}
 
-	if err := os.MkdirAll(w.R, 0o755); err != nil {
+	if err := os.MkdirAll(w.R0, 0o755); err != nil {
 		return err
 	}
 
-	if err := os.Mkdir(w.R+"/d", 0o755); err != nil {
+	if err := os.Mkdir(w.R0+"/d", 0o755); err != nil {
 		return err
 	}
 
-	if err := os.WriteFile(w.R+"/d/f", []byte("DF"), 0o644); err != nil {
+	if err := os.WriteFile(w.R0+"/d/f", []byte("DF"), 0o644); err != nil {
 		return err
 	}
 
-	if err := os.WriteFile(w.R+"/f", []byte("F"), 0o644); err != nil {
+	if err := os.WriteFile(w.R0+"/f", []byte("F"), 0o644); err != nil {
 		return err
 	}
 
-	if err := os.Mkdir(w.R+"/dd", 0o755); err != nil {
+	if err := os.Mkdir(w.R0+"/dd", 0o755); err != nil {
 		return err
 	}
 
-	if err := os.WriteFile(w.R+"/dd/f", []byte("DDF"), 0o644); err != nil {
+	if err := os.WriteFile(w.R0+"/dd/f", []byte("DDF"), 0o644); err != nil {
 		return err
 	}
 
@@ -134,6 +208,12 @@ func (w *world) buildK() error {
 		}
 
 		if err := os.Symlink(t, w.linkPath(l)); err != nil {
+			return err
+		}
+	}
+
+	for _, st := range w.moveSteps() {
+		if err := os.Rename(st[0], st[1]); err != nil {
 			return err
 		}
 	}
@@ -164,17 +244,24 @@ func (w *world) buildV() (res fsx.Res) {
 			return true
 		}
 
-		if !step("MkdirAll(R)", v.MkdirAll(w.R, 0o755)) ||
-			!step("Mkdir(R/d)", v.Mkdir(w.R+"/d", 0o755)) ||
-			!step("WriteFile(R/d/f)", v.WriteFile(w.R+"/d/f", []byte("DF"), 0o644)) ||
-			!step("WriteFile(R/f)", v.WriteFile(w.R+"/f", []byte("F"), 0o644)) ||
-			!step("Mkdir(R/dd)", v.Mkdir(w.R+"/dd", 0o755)) ||
-			!step("WriteFile(R/dd/f)", v.WriteFile(w.R+"/dd/f", []byte("DDF"), 0o644)) {
+		if !step("MkdirAll(R)", v.MkdirAll(w.R0, 0o755)) ||
+			!step("Mkdir(R/d)", v.Mkdir(w.R0+"/d", 0o755)) ||
+			!step("WriteFile(R/d/f)", v.WriteFile(w.R0+"/d/f", []byte("DF"), 0o644)) ||
+			!step("WriteFile(R/f)", v.WriteFile(w.R0+"/f", []byte("F"), 0o644)) ||
+			!step("Mkdir(R/dd)", v.Mkdir(w.R0+"/dd", 0o755)) ||
+			!step("WriteFile(R/dd/f)", v.WriteFile(w.R0+"/dd/f", []byte("DDF"), 0o644)) {
 			return
 		}
 
 		for _, l := range w.links {
 			if !step("Symlink("+l.String()+")", v.Symlink(w.expand(l.Target), w.linkPath(l))) {
+				return
+			}
+		}
+
+		// the kernel performed every step of the move (buildK)
+		for _, st := range w.moveSteps() {
+			if !step("move "+w.move+": Rename("+st[0]+", "+st[1]+")", v.Rename(st[0], st[1])) {
 				return
 			}
 		}
@@ -207,8 +294,9 @@ func (w *world) dumpV(mtime bool) []string {
 
 // setup builds both sides for a configuration and records the pristine dumps
 // and the attribute-level differences present before any call.
-func (w *world) setup(links []Link, mode int) (avfsSetup fsx.Res, structural []string, err error) {
-	w.links = links
+func (w *world) setup(c config, mode int) (avfsSetup fsx.Res, structural []string, err error) {
+	w.links = c.Links
+	w.setMove(c.Move)
 	w.mode = mode
 	w.alt = false
 	w.altPristineK, w.altDiff = nil, nil
@@ -349,7 +437,7 @@ func (w *world) call(cs callSpec, q string) fsx.Call {
 	case "Rename(f,q)":
 		return fsx.Call{Op: "Rename", A: w.R + "/f", B: q}
 	case "Rename(d,q/n)":
-		return fsx.Call{Op: "Rename", A: w.R + "/d", B: q + "/n"}
+		return fsx.Call{Op: "Rename", A: w.R + "/" + w.dName(), B: q + "/n"}
 	case "Lchown":
 		return fsx.Call{Op: "Lchown", A: q, N: 1001, M: 1001}
 	case "Chown":
@@ -427,7 +515,7 @@ func (w *world) classifyPath(mode int, comps []string) (via, dd string) {
 	prefix := w.R
 
 	if mode == 2 {
-		prefix = w.R + "/d"
+		prefix = w.R + "/" + w.dName()
 	}
 
 	return classifyFrom(prefix, comps)
